@@ -752,6 +752,8 @@ fragment F on T20 { f3 f1 { f3 } }`, `{ f1 { f3 f4 { f3 } } }`, `mutation M { f1
 		`{ f5 { ...S } f6 { ...S } } fragment S on T28 { f7(a2: 2) }`, `{ f5 { f7(a1: 1) } f6 { f7(a2: 2) ... on T21 { f7(a1: 3) } } }`,
 		// fragments that reach themselves only through an inline fragment, a field, a list, one another
 		`{ ...A } fragment A on Query { f1 { f3 } ... on Query { ...A } }`, `{f1{...F}} fragment F on T20 { f3 ... { ...F } }`,
+		// a list under a key the input type does not declare
+		`{ f2(a1: 1, a3: {a1: 1, bogus: [1, 2]}) }`, `{ f2(a1: 1, a3: {a1: 1, extra: [[$v1]]}) }`, `{ f2(a1: 1, a4: {zzz: {k: [1, {j: []}]}}) }`,
 		"{ f2(a1: 1, a2: [\"😀\", \"𐍈\"]) f1 { f3 } }", "query($v: [String] = [\"😀\"]) { f2(a1: 1, a2: $v) }",
 		`{f1{...F}} fragment F on T20 { f4 { ... on T20 { f1 { ...F } } } }`, `{f1{...F}} fragment F on T20 { ... on T20 { ...G } } fragment G on T20 { ... { ...F } }`},
 }
